@@ -11,6 +11,7 @@ TECHNIQUE = 'runtime monitoring: reference-model oracle (textbook DP, brute forc
 RULE = ('pairs of sequences (len 0-12, alphabets of 2-4 symbols or 30 symbols; list[str], list[int], tuples, multi-char tokens; '
         'classes: random, equal, substring, prefix-insertion, empty) with costs 1-4; plus exhaustive enumeration of all pairs over '
         'a 2-letter alphabet up to a length bound. non-trivial = both sequences non-empty and different; distinct = hash of (a, b, costs) Signed / very large integer symbols; caller-chosen gap markers; aggregation over one-shot iterables. A sequence of 8190-32769 symbols against a tiny one; the path variant with an occurring empty_symbol; aggregates of aggregates.')
+RULE += ' Round 6: The empty-string token.'
 ASSUMPTIONS = ['sequences are homogeneous lists/tuples (numpy coerces heterogeneous lists; plain str is not accepted by the functions)',
                'substring variants are judged with unit costs only (as the statement says)',
                'for equal lengths the first argument is taken as the "longer" sequence, either reading accepted for the distance']
